@@ -37,12 +37,15 @@ def parseInt (s : String) : Option Int :=
   else s.toNat?.map (fun n => (n : Int))
 
 def parseVol (i : Nat) (s : String) : Option Vol :=
-  match s.toList with
-  | [a, b] =>
-    -- 'r' = Volumes.*.ReadOnly, 'a' = read-only through AccessViaHosts: both make the MOUNT read-only
+  -- 'r' = Volumes.*.ReadOnly, 'a' = read-only through AccessViaHosts: both make the MOUNT read-only;
+  -- a third character 'f' = the volume reports itself full
+  let mk (a b : Char) (full : Bool) : Option Vol :=
     if (a = 'w' ∨ a = 'r' ∨ a = 'a') ∧ (b = 's' ∨ b = 'n') then
-      some { id := i, ro := a ≠ 'w', blocks := fun _ => none, trash := [] }
+      some { id := i, ro := a ≠ 'w', blocks := fun _ => none, trash := [], full := full }
     else none
+  match s.toList with
+  | [a, b] => mk a b false
+  | [a, b, 'f'] => mk a b true
   | _ => none
 
 def setVol (vs : List Vol) (i : Nat) (f : Vol → Vol) : List Vol := updVol vs i f
